@@ -558,6 +558,13 @@ def setup_call(name, sets_finalized=False):
     return h
 
 
+def finalize_call(ex, e, st):
+    """self.finalize(): the contract of Circuit.finalize (verified under C15 and C08): raises, or the circuit is finalized afterwards"""
+    from specs import frozen
+    me = as_kind(st.env['self'], Ref(), st)
+    return calls.apply_bound(ex, st, CONTRACTS['Circuit.finalize'], {'self': ZV('ref', me, 'Circuit')}, 'call:Circuit.finalize')
+
+
 def start_call(ex, e, st):
     blk = as_kind(st.env['blk'], Ref(), st)
     outs = []
@@ -770,7 +777,7 @@ def verify_run_forever(run):
                calls={'self.getblocks': sblocks_of, 'self._simtask.done': task_pred('task_done'), 'asyncio.current_task': current_task,
                       'set': empty_refset, 'asyncio.Queue': new_queue, 'asyncio.Event': new_event,
                       'self._check_persistent_data': setup_call('_check_persistent_data'), 'self._resolver.resolve': setup_call('resolve'),
-                      'self.finalize': setup_call('finalize', sets_finalized=True), 'blk.start': start_call,
+                      'self.finalize': finalize_call, 'blk.start': start_call,
                       'self._init_done.set': init_done_set, 'blk.save_persistent_state': rf_save_call, 'time.time': unix_time},
                hooks={'heap_dicts': True,
                       'await': awaits({'asyncio.sleep(0)': await_sleep0_rf, '_test_eager_tasks()': await_eager_test,
@@ -1005,36 +1012,12 @@ def lifecycle_scans(run):
     run.scan('stop_sblocks_callers', callers == ['edzed/simulator.py:Circuit.run_forever'], f'{callers}')
 
 
-# ---- no modification after the end: check_not_finalized and its callers -------------------------------------------------------------------------
-@contract('Circuit.check_not_finalized', qual=Q + 'check_not_finalized', modifies=(), self_cls='Circuit')
-def _check_not_finalized(c):
-    me = c.z('self')
-    c.requires('error_is_none_or_an_exception', Or(c.pre('_error', me) == Val.VNone, is_exception(c.pre('_error', me))))
-    c.raises('EdzedInvalidState', when=Or(c.pre('_error', me) != Val.VNone, c.pre('_finalized', me)), iff=True, label='finalized_or_shut_down')
-
-
-@contract('Circuit.set_persistent_data', qual=Q + 'set_persistent_data', modifies=('persistent_dict',), self_cls='Circuit')
-def _set_persistent_data(c):
-    me = c.z('self')
-    c.requires('error_is_none_or_an_exception', Or(c.pre('_error', me) == Val.VNone, is_exception(c.pre('_error', me))))
-    c.raises('EdzedInvalidState', when=Or(c.pre('_error', me) != Val.VNone, c.pre('_finalized', me)), iff=True, label='finalized_or_shut_down')
-    c.ensures('storage_set', c.post('persistent_dict', me) == c.v('persistent_dict'))
-
-
-@contract('Circuit.addblock', qual=Q + 'addblock', modifies=('_blocks',), self_cls='Circuit', params={'blk': Ref()})
-def _addblock(c):
-    me = c.z('self')
-    c.requires('error_is_none_or_an_exception', Or(c.pre('_error', me) == Val.VNone, is_exception(c.pre('_error', me))))
-    closed = Or(c.pre('_error', me) != Val.VNone, c.pre('_finalized', me))
-    c.raises('EdzedInvalidState', when=closed, label='finalized_or_shut_down')
-    c.raises('TypeError', when=Not(closed), label='not_a_block')
-    c.raises('ValueError', when=Not(closed), label='duplicate_name')
-    c.ensures('only_while_the_circuit_is_open', Not(closed))
-
-
+# ---- no modification after the end: check_not_finalized and its callers (contracts: specs/c15.py) -------------------------------------------------
 def verify_no_modification(run):
     from pyvc import scan
+    from specs import frozen
     run.verify('Circuit.check_not_finalized', cls='Circuit')
+    run.verify('Circuit.finalize', cls='Circuit', calls={'self._finalize': frozen._finalize_call})
     run.verify('Circuit.set_persistent_data', cls='Circuit')
     run.verify('Circuit.addblock', cls='Circuit')
     callers = scan.method_callers('check_not_finalized')
